@@ -2,6 +2,7 @@
 from .engine import Job, ELEM_IR
 
 K_ALLOC, K_COPY, K_MOVE, K_CASSIGN, K_MASSIGN, K_DEFAULT, K_DEREF, K_INC, K_CMP, K_GEN, K_VALUE = 1, 2, 4, 8, 16, 32, 64, 128, 256, 512, 1024
+A_MAXSZ_ = 32
 K_ALL_ELEM = K_COPY | K_MOVE | K_CASSIGN | K_MASSIGN | K_DEFAULT | K_VALUE
 K_ALL = K_ALLOC | K_ALL_ELEM
 
@@ -17,12 +18,14 @@ OPS_NEED_COPY = {'push_back_c', 'insert_c', 'insert_n', 'insert_range', 'insert_
                  'assign_il', 'assign_op_il', 'append_range', 'append_il', 'emplace'}
 OPS_ALIAS = ['push_back_c', 'emplace_back', 'insert_c', 'insert_n', 'emplace', 'resize_v']
 
-def ops_job(op, elem, n, cap, fmask=0, alias=0, afl=0, maxcnt=2, size=None, std='c++17', extra_defs=None, witness=None, tag=''):
+def ops_job(op, elem, n, cap, fmask=0, alias=0, afl=0, maxcnt=2, size=None, std='c++17', extra_defs=None, witness=None, tag='', maxsz=None, sizet=None):
     maxcap = max(2 * cap, cap + maxcnt + 2, 2)
     maxm = cap + maxcnt + 2
     defs = {'VF_ELEM': elem, 'VF_N': n, 'VF_CAP': cap, 'VF_OP': 'OP_' + op, 'VF_FMASK': fmask, 'VF_ALIAS': alias,
             'VF_AFL': afl, 'VF_MAXCNT': maxcnt, 'VF_MAXCAP': maxcap}
     if size is not None: defs['VF_SIZE'] = size
+    if maxsz is not None: defs['VF_MAXSZ'] = maxsz; defs['VF_AFL'] = afl | A_MAXSZ_; tag += '-M%d' % maxsz
+    if sizet is not None: defs['VF_SIZET'] = sizet; tag += '-' + sizet.replace('std::', '').replace('_t', '')
     if op.endswith('_il') and elem != 'int' and fmask and not (extra_defs and 'VF_B' in extra_defs):
         defs['VF_B'] = 2; tag += '-b2'   # initializer-list ops instantiate one call site per length: pin the length when faults are on
     if extra_defs: defs.update(extra_defs)
@@ -70,3 +73,37 @@ def two_job(op, elem, na, nb, capa, capb, afl=0, ideq=1, fmask=0, nfaults=1, std
                expect_witness=w,
                desc='%s: small_vector<%s,%d> (cap %d) <- small_vector<%s,%d> (cap %d), allocator flags %d, ids %s%s' % (
                    op, elem, na, capa, elem, nb, capb, afl, 'equal' if ideq else 'unequal', ', faults kinds=%d' % fmask if fmask else ''))
+
+def kern_job(sizet, kn=0, esz=1, std='c++17'):
+    defs = {'VF_SIZET': sizet, 'VF_KN': kn, 'VF_ESZ': esz}
+    name = 'kern-%s-N%d-e%d' % (sizet.replace('std::', '').replace(' ', ''), kn, esz) + ('' if std == 'c++17' else '-' + std.replace('+', 'p'))
+    return Job(name, 'kern', defs, elems=[], std=std, unwind=8, maxalloc=4, minalloc=0,
+               expect_witness=['growth kernel reached', 'length_error reached'],
+               desc='size arithmetic kernels for size_type=%s, inline capacity %d, element size %d: all 64-bit values of size/capacity/required/count/max_size' % (sizet, kn, esz))
+
+RNG_OPS = ['ctor_range', 'assign_range', 'insert_range', 'append_range', 'ctor_count', 'ctor_count_val', 'ctor_gen', 'ctor_il']
+ITK_NAME = {0: 'input', 1: 'forward', 2: 'random', 3: 'pointer'}
+def rng_job(op, elem, n, cap, itk=0, fmask=0, nfaults=1, maxsz=None, length=3, afl=0, sizet=None, std='c++17', witness=None, extra_defs=None, tag='', lenfix=None, sizefix=None):
+    ctor = op.startswith('ctor')
+    if ctor: cap = n
+    if not ctor and cap == 0 and op == 'x': return None
+    maxcap = max(2 * cap, cap + length + 2, 2)
+    if itk == 0 and op in ('ctor_range', 'assign_range', 'insert_range', 'append_range'):
+        def grow(c, need):   # single pass: repeated doubling, one element at a time
+            while c < need: c = max(2 * c, c + 1)
+            return c
+        maxcap = max(grow(cap, cap + length), grow(n, length), 2 * cap, cap + length + 2)
+    defs = {'VF_ELEM': elem, 'VF_N': n, 'VF_CAP': cap, 'VF_OP': 'OP_' + op, 'VF_ITK': itk, 'VF_FMASK': fmask, 'VF_NFAULTS': nfaults,
+            'VF_LEN': length, 'VF_AFL': afl, 'VF_MAXCAP': maxcap}
+    if maxsz is not None: defs['VF_MAXSZ'] = maxsz; defs['VF_AFL'] = afl | A_MAXSZ_; tag += '-M%d' % maxsz
+    if sizet is not None: defs['VF_SIZET'] = sizet; tag += '-' + sizet.replace('std::', '').replace('_t', '')
+    if lenfix is not None: defs['VF_LENFIX'] = lenfix; tag += '-len%d' % lenfix
+    if sizefix is not None: defs['VF_SIZEFIX'] = sizefix; tag += '-sz%d' % sizefix
+    if extra_defs: defs.update(extra_defs)
+    uses_range = op in ('ctor_range', 'assign_range', 'insert_range', 'append_range')
+    name = 'rng-%s-%s-N%d-c%d%s%s%s' % (op, elem, n, cap, '-' + ITK_NAME[itk] if uses_range else '', '-f%d' % fmask if fmask else '', tag)
+    if std != 'c++17': name += '-' + std.replace('+', 'p')
+    w = ['normal return'] if witness is None else witness
+    return Job(name, 'rng', defs, elems=[ELEM_IR[elem]], std=std, unwind=max(maxcap, cap + length + 2, 6) + 2, maxalloc=maxcap, minalloc=n + 1,
+               expect_witness=w, desc='%s%s on small_vector<%s,%d>%s, length <= %d%s' % (op, ' (%s iterators)' % ITK_NAME[itk] if uses_range else '', elem, n,
+                    '' if ctor else ' from any state with capacity %d' % cap, length, ', faults kinds=%d' % fmask if fmask else ''))
